@@ -213,7 +213,11 @@ func fillX(rng *rand.Rand, c xcache, n int) {
 		case 0:
 			wctx = cache.WithTTL(ctx, time.Duration(hour+rng.Int63n(hour)), false)
 		case 1:
-			wctx = cache.WithTTL(ctx, -time.Duration(1+rng.Int63n(hour)), false)
+			d := 1 + rng.Int63n(hour)
+			if d%16 == 0 {
+				d = (60 + d%40) * 365 * 24 * hour // an expiry before the unix epoch: a negative timestamp travels like any other
+			}
+			wctx = cache.WithTTL(ctx, -time.Duration(d), false)
 		}
 		c.Write(wctx, k, tok)
 		for r := rng.Intn(3); r > 0; r-- {
@@ -488,6 +492,41 @@ func runC13(o Opts) *Result {
 					res.Violations = append(res.Violations, Violation{Property: "C11", Kind: "monitor", Sig: "xfer:cleanup-after-restore-order:" + kind,
 						Detail: fmt.Sprintf("%s, UnlimitedTTL target, dump with the never-expiring entry %s and %d entries expired for an hour: after Restore and one cleanup cycle %d long-expired entries remain (never-expiring entry present: %v)", kind, neverPos, len(shs)-1, left, haveNever),
 						Replay: map[string]interface{}{"engine": "xfer", "profile": "c13", "scenario": "directed restore order", "backend": kind, "never_expiring_entry": neverPos}})
+				}
+				res.TracesValidated++
+			}
+			// a dump that breaks off in the middle (C14's truncated bodies, C11's janitor): whatever made it into an UnlimitedTTL
+			// target before Restore gave up is subject to the next cleanup cycle like any other entry
+			for _, cut := range []int{2, 3, 5, 7} {
+				mkU := func() xcache {
+					return newX(kind, func(c *cache.Config) {
+						c.TimeToLive = cache.UnlimitedTTL
+						c.ExpirationJitter = -1
+						c.DeleteExpiredAfter = time.Millisecond
+					})
+				}
+				src := mkU()
+				for i := 0; i < 24; i++ {
+					src.Write(cache.WithTTL(ctx, -time.Hour, false), []byte(fmt.Sprintf("trunc-%s-%d", kind, i)), 8)
+				}
+				var buf bytes.Buffer
+				if _, err := src.Dump(&buf); err != nil {
+					continue
+				}
+				dst := mkU()
+				n, err := dst.Restore(bytes.NewReader(buf.Bytes()[:buf.Len()*cut/8]))
+				res.Evaluations++
+				res.count("directed-truncated-restore:" + kind)
+				got := len(dst.Walk())
+				if err == nil || got == 0 {
+					continue // (the cut fell on a record boundary before the first entry / after the last: nothing to learn)
+				}
+				time.Sleep(3 * time.Millisecond)
+				dst.Cleanup()
+				if left := len(dst.Walk()); left != 0 {
+					res.Violations = append(res.Violations, Violation{Property: "C11", Kind: "monitor", Sig: "xfer:cleanup-after-truncated-restore:" + kind,
+						Detail: fmt.Sprintf("%s, UnlimitedTTL target: Restore of a dump cut at %d/8 of its length returned (%d, %v) with %d entries stored, all expired for an hour; after one cleanup cycle %d of them remain (DeleteExpiredAfter = 1ms)", kind, cut, n, err, got, left),
+						Replay: map[string]interface{}{"engine": "xfer", "profile": "c13", "scenario": "directed truncated restore", "backend": kind, "cut_eighths": cut}})
 				}
 				res.TracesValidated++
 			}
